@@ -160,6 +160,8 @@ pub struct Tally {
     /// searches for which the completeness bound was the strongest possible,
     /// min(k, n): layer 0 strongly connected over the live nodes
     pub full_bound: u64,
+    /// searches for which the exactness clause applied (R = n and beam >= n)
+    pub exact_required: u64,
 }
 
 /// The three out-of-distribution queries: far away, the zero vector, and a
@@ -226,7 +228,8 @@ pub fn check_index(
     alt: Option<&VecModel>,
     tally: &mut Tally,
 ) -> Result<(), Fail> {
-    let min_results = if alt.is_none() { Some(min_forward_reach(index, model)) } else { None };
+    // (R, configured ef_search): the configuration is read back from the index's metadata
+    let min_results = if alt.is_none() { Some((min_forward_reach(index, model), index.metadata().config.ef_search)) } else { None };
     check_with(
         &|q, k| index.search_f32(q, k).map_err(|e| e.to_string()),
         (index.len(), index.stats().num_elements),
@@ -251,12 +254,41 @@ pub fn check_index(
                 .search(&qb, k)
                 .map_err(|e| Fail::new("search_error", format!("search({qf:?} as bf16, {k}) failed: {e}")))?;
             check_result(metric, &qf, k, &res, &|id| model.live.get(&id).cloned().into_iter().collect())?;
-            if let Some(r) = min_results {
+            if let Some((r, ef_search)) = min_results {
                 if res.len() < k.min(r) {
                     return Err(too_few(&qf, k, &res, r));
                 }
+                if r == model.len() && ef_search.max(k) >= model.len() {
+                    exact_top_k(metric, &qf, k, &res, model)?;
+                }
             }
         }
+    }
+    Ok(())
+}
+
+/// Exactness clause. When layer 0 is strongly connected over the live nodes
+/// (R = n) and the documented layer-0 beam max(ef_search, k) is at least n, the
+/// beam cannot fill up before every node has been visited, whatever node the
+/// descent lands on: the answer must be THE exact top-k, i.e. min(k, n)
+/// results whose distances are the min(k, n) smallest brute-force distances
+/// (compared as a sorted list, so exact ties between ids are free).
+pub fn exact_top_k(metric: DistanceMetric, q: &[f32], k: usize, res: &[(u64, f32)], model: &VecModel) -> Result<(), Fail> {
+    let mut want: Vec<(f64, f64, u64)> = model.live.iter().map(|(id, v)| { let (d, mag) = metric_f64(metric, q, v); (d, mag, *id) }).collect();
+    want.sort_by(|a, b| a.0.partial_cmp(&b.0).unwrap().then(a.2.cmp(&b.2)));
+    want.truncate(k);
+    let bad = res.len() != want.len()
+        || res.iter().zip(&want).any(|((_, got), (d, mag, _))| (*got as f64 - d).abs() > 1e-3 * d.abs() + 1e-5 * mag + 1e-9);
+    if bad {
+        return Err(Fail::new(
+            "not_exact",
+            format!(
+                "search({q:?}, k={k}) = {res:?}, but every live node is reachable from every other over layer 0 and the beam max(ef_search, k) covers all {} nodes: \
+                 the exact top-{k} by brute force is {:?}",
+                model.len(),
+                want.iter().map(|(d, _, id)| (*id, *d as f32)).collect::<Vec<_>>()
+            ),
+        ));
     }
     Ok(())
 }
@@ -270,7 +302,7 @@ pub fn check_with(
     dim: usize,
     model: &VecModel,
     alt: Option<&VecModel>,
-    min_results: Option<usize>,
+    min_results: Option<(usize, usize)>,
     tally: &mut Tally,
 ) -> Result<(), Fail> {
     let mut queries: Vec<Vec<f32>> = model.live.values().cloned().collect();
@@ -312,19 +344,24 @@ pub fn check_with(
         }
     }
     for q in &queries {
-        for k in 1..=n + 1 {
+        // k = 1..n+1 and, beyond the set, k = 10
+        for k in (1..=n + 1).chain((n + 1 < 10).then_some(10)) {
             tally.searches += 1;
             let res = match search(q, k) {
                 Ok(r) => r,
                 Err(e) => return Err(Fail::new("search_error", format!("search_f32({q:?}, {k}) failed: {e}"))),
             };
             check_result(metric, q, k, &res, &vectors_of)?;
-            if let Some(r) = min_results {
+            if let Some((r, ef_search)) = min_results {
                 if res.len() < k.min(r) {
                     return Err(too_few(q, k, &res, r));
                 }
                 if r == model.len() {
                     tally.full_bound += 1;
+                    if ef_search.max(k) >= model.len() {
+                        exact_top_k(metric, q, k, &res, model)?;
+                        tally.exact_required += 1;
+                    }
                 }
             }
             if !res.is_empty() {
